@@ -44,7 +44,7 @@ func reorgStorm(r *ev.Run, caseID string) {
 		prev = h.HashOf()
 	}
 	// the two branches, generated up front so that the readers' set of known hashes is read-only while they run
-	nFlips := r.Pick(120, 1500)
+	nFlips := r.Pick(120, 800)
 	var light, heavy []refmodel.Hdr
 	lp, hp := prev, prev
 	for i := 0; i < 3*nFlips+8; i++ {
